@@ -12,6 +12,7 @@
 """
 import json
 import os
+import random
 from concurrent.futures import ThreadPoolExecutor
 
 from vlib import core
@@ -122,14 +123,33 @@ def judge(ctx, raw, name):
     return findings, notes
 
 
-def report(ctx, cases, findings):
+def report(ctx, vh, cases, findings, confirm=True):
+    """At most 3 cases per signature; each is executed once more and re-judged before it is reported."""
     by_id = {c["id"]: c for c in cases}
+    picked, per_sig = [], {}
     for f in findings:
         c = by_id[f["case"]]
-        tr = transform_of(c)
-        sig = "%s/BowyerWatson/%s" % (f["pred"], tr)
+        sig = "%s/BowyerWatson/%s" % (f["pred"], transform_of(c))
+        if per_sig.get(sig, 0) >= 3:
+            continue
+        per_sig[sig] = per_sig.get(sig, 0) + 1
+        picked.append((sig, f, c))
+    if not picked:
+        return
+    if confirm:
+        again = []
+        for n, (sig, f, c) in enumerate(picked):
+            cc = dict(c)
+            cc["id"] = n
+            again.append(cc)
+        raw = execute(ctx, vh, again, "confirm")
+        got = {(g["case"], g["pred"]) for g in judge(ctx, raw, "confirm")[0]}
+        for n, (sig, f, c) in enumerate(picked):
+            if (n, f["pred"]) not in got:
+                raise core.Infra("rejection %s of case %d does not reproduce on re-execution" % (sig, f["case"]))
+    for sig, f, c in picked:
         what = "%s rejected the triangulation of %d points (%s, k=%d, offset %s*2^%d, tag %s): %d triangles returned" % (
-            f["pred"], f["n"], tr, c["k"], c["j"], c["m"], c.get("tag"), f["tris"])
+            f["pred"], f["n"], transform_of(c), c["k"], c["j"], c["m"], c.get("tag"), f["tris"])
         ctx.violation(sig, what, {"family": "delaunay", "pred": f["pred"], "case": c})
 
 
@@ -217,6 +237,7 @@ def run(ctx):
         cases += core.read_ndjson(p)
     # spread the large seeded sets over the shards
     b1, b2 = cases[:nb1], cases[nb1:]
+    random.Random(ctx.seed).shuffle(b2)
     cases = []
     step = max(1, len(b1) // max(1, len(b2)))
     while b1 or b2:
@@ -228,7 +249,7 @@ def run(ctx):
         c["id"] = i
     raw = execute(ctx, vh, cases, "main")
     findings, notes = judge(ctx, raw, "main")
-    report(ctx, cases, findings)
+    report(ctx, vh, cases, findings)
     total = len(raw)
     gp = total - notes["notGP"]
     bad_cases = len({f["case"] for f in findings})
@@ -278,7 +299,7 @@ def replay(ctx, path):
     findings, notes = judge(ctx, raw, "replay")
     for f in findings:
         print("replay: %s (%d points, %d triangles)" % (f["pred"], f["n"], f["tris"]))
-    report(ctx, [case], findings)
+    report(ctx, vh, [case], findings, confirm=False)
     ctx.traces = 1
     ctx.evaluations = 1
     ctx.nontrivial = 1
